@@ -96,6 +96,7 @@ def make_judge(chk, stats):
 
 def run(tier):
     chk = vlib.Check(PID, tier, 'model_checking')
+    chk.soft_guards_when_cut = False          # quick is deadline-bounded by design; the guards below hold long before any cut
     vlib.build('plain')
     files = zoo.standard_files()
     files.update(zoo.large_files())          # links > CHUNKSIZE: quick explores them to depth 2 only, thorough to the fix-point
